@@ -6,13 +6,16 @@ Part A (policy): the REAL `meson setup --backend=none` of $VERIF_REPO on generat
   the forked child wrap DependencyFallbacksHolder.lookup/_get_candidates, dependencies.find_external_dependency
   and Interpreter.do_subproject; online rules: under forced fallback the system is never consulted for the
   name, under nofallback no subproject is configured from a lookup.  Sequences of <= 3 lookups: same arguments
-  -> same answer; once found, the same value.
+  -> same answer; once found, the same value.  A `static:` factor on the lookups x default_library of the main
+  project vs the subproject (same / default_options / -Dsub:default_library) for the link kinds that rely on the
+  subproject's meson.override_dependency(); reconfigurations with other wrap_mode / force_fallback_for.
 Part B (integrity): wrap worlds with a corruption class at a location, a recorded-hash class and an injected
   fault, through `meson setup` and `meson subprojects download`.  Monitors wrap shutil.unpack_archive,
   urllib.request.urlopen, Resolver.get_data/check_hash/copy_tree.  Online: at every unpack the monitor hashes
   the bytes at the path being unpacked and compares with the hash the wrap file records for that role; no
   urlopen under nodownload.  After each run: a failed run leaves no subprojects/<dir>, the cache holds no
-  unverified bytes under a final name, a successful (second) run has the complete tree.
+  unverified bytes under a final name, a successful (second) run has the complete tree.  Source trees with a
+  dangling symlink, a symlink to a directory and read-only entries are combined with every patch/diff fault.
 """
 from __future__ import annotations
 
